@@ -50,17 +50,17 @@ type c37TL struct {
 }
 
 type c37Chain struct {
-	name    string
-	root    string // which root the CA hangs under ("" = n/a)
-	validAt bool   // AS certificate valid at T0
-	wellFormed bool // AS type certificate issued by the included CA
-	as      *pkigen.Cert
-	ca      *pkigen.Cert
+	name       string
+	root       string // which root the CA hangs under ("" = n/a)
+	validAt    bool   // AS certificate valid at T0
+	wellFormed bool   // AS type certificate issued by the included CA
+	as         *pkigen.Cert
+	ca         *pkigen.Cert
 }
 
 func TestC37(t *testing.T) {
 	r := mc.NewRun(t, "C37", mc.Exploration)
-	r.Rule = "part 1: product of signer-info variants (8) x certificate-set variants (6) x client chains (8) x TRC timelines (8) x " +
+	r.Rule = "part 1: product of signer-info variants (9) x certificate-set variants (6) x client chains (8) x TRC timelines (8) x " +
 		"signed-payload variants (3) x CSR variants (8); quick = all points with <= 3 deviating dimensions, thorough = the full " +
 		"product; one case = one VerifyCMSSignedRenewalRequest call; part 2: CreateChain for every CA window x validity x signing " +
 		"time x curve x subject x ForceECDSAWithSHA512; non-trivial = every case (all inputs pairwise different)"
@@ -246,6 +246,7 @@ func c37Run(r *mc.Run, budget *atomic.Bool) {
 		{"two signer infos (AS and CA)", false},
 		{"no signer info", false},
 		{"one signer info naming a certificate that is not included", false},
+		{"one signer info naming the CA certificate, signed with the AS key", false},
 	}
 	type certVar struct {
 		name string
@@ -309,6 +310,8 @@ func c37Run(r *mc.Run, budget *atomic.Bool) {
 		case 6:
 		case 7:
 			add(extraCert.X, extraCert.Key)
+		case 8:
+			add(ch.ca.X, asKey)
 		}
 		eci, err := protocol.NewDataEncapsulatedContentInfo(csr.raw)
 		if err != nil {
